@@ -287,6 +287,14 @@ def mul_cases(cv, rng, ks_for, point_ms, seeds=None, ops=None, pre="ep2", frb=No
         ks = ks_for(op)
         if frb and not op.endswith("_mul_dig"):
             ks = list(ks) + [k for k in frb if op != "ep2_mul_slide" or abs(k).bit_length() <= cv.fpb + 1]
+        if op in ("ep2_mul", "ep2_mul_gen") and frb is not None:
+            D = 1 << cv.dgb
+            for k in [2, -2, 3, -3, D - 1, -(D - 1), (D >> 1) + 1, -((D >> 1) + 1), D, -D, D + 1, -(D + 1)]:
+                if op == "ep2_mul":
+                    for al in (0, 1):
+                        cases.append("%s %s %d %s %s" % (op, c, al, mul_point(cv, rng, point_ms, seeds), hx(k)))
+                else:
+                    cases.append("%s %s 0 %s" % (op, c, hx(k)))
         if op in MUL_FIX or op.endswith("_mul_fix"):
             pts = [mul_point(cv, rng, point_ms) for _ in range(2)]
             pts = [p.split("/")[0] for p in pts]       # tables are built from affine points
